@@ -82,6 +82,7 @@ class Screen:
         self.graphics_log: list[dict] = []  # every complete graphics command, decoded
         self.out_of_sync_bytes = 0  # bytes that changed the screen outside a 2026 bracket
         self.track_sync = False
+        self.strict_strings = False  # True: only ST (BEL for OSC) ends a command string
         # parser
         self._state = "ground"
         self._buf: list[str] = []
@@ -194,6 +195,11 @@ class Screen:
                 i += 1
                 if ch == "\\":
                     self._end_string("ST")
+                elif self.strict_strings:
+                    # the library's own model of terminals: a command string swallows everything
+                    # (including ESC not followed by a backslash) until ST is written
+                    self._buf.append(ESC + ch)
+                    self._state = "str_esc" if ch == ESC else "str"
                 else:
                     self.anomaly("aborted", f"{self._kind} string by ESC {ch!r}")
                     self._buf = []
